@@ -141,3 +141,49 @@ def stale_view(ctx, backend, aspect, cfg='asan'):
         for x in (A, B, C):
             if x is not None: x.kill()
     return n
+
+def stale_view_under_faults(ctx, backend, aspect, cfg='asan'):
+    """The holder process has read a token object; ANOTHER process changes it with CKR_OK (aspect 'reveal': sets CKA_SENSITIVE on a key the holder has read; 'modify': rewrites CKA_ID;
+    'destroy': destroys it).  The holder's NEXT call runs with its k-th file-system operation failing (EMFILE / EACCES: a process at its descriptor limit), for every k.  That call may fail --
+    but it must not answer CKR_OK with what was true BEFORE the other process's change (the old value of a now sensitive key; the old CKA_ID; the destroyed object), and once the fault is gone
+    the following call must observe the committed state (one failed reload must not make the object permanently invalid, nor permanently stale).  -> number of cells"""
+    ck = ctx.ck; n = 0; VAL0 = bytes(range(0x60, 0x80)); errnos = ctx.q((24,), (24, 13, 5))
+    def one(k, errno):
+        d, A, sa = _setup(ctx, backend, f'fault-{aspect}', cfg); B = None
+        try:
+            h = _key(A, sa, ck, b'VICTIM', VAL0, ktype='CKK_GENERIC_SECRET', CKA_ID=b'id-before')
+            rvn, v0 = A.getattrs(sa, h, ['CKA_VALUE', 'CKA_ID']); assert v0.get('CKA_VALUE') == VAL0, (rvn, v0)
+            B, sb = _attach(ctx, d, backend, cfg); hb = B.findall(sb, {'CKA_LABEL': b'VICTIM'})[1]; assert len(hb) == 1
+            if aspect == 'reveal': r = B.call('C_SetAttributeValue', s=sb, o=hb[0], tmpl=B.T({'CKA_SENSITIVE': True}))
+            elif aspect == 'modify': r = B.call('C_SetAttributeValue', s=sb, o=hb[0], tmpl=B.T({'CKA_ID': b'id-after'}))
+            else: r = B.call('C_DestroyObject', s=sb, o=hb[0])
+            assert r['rv'] == 0, r['rvname']
+            root = os.path.join(d, 'tokens')
+            if k == 0: A.call('fs', mode='count', root=root)
+            else: A.call('fs', mode='fail', root=root, k=k, errno=errno)
+            q = A.call('C_GetAttributeValue', s=sa, o=h, tmpl=[{'t': ck.CKA_VALUE, 'buf': 64}, {'t': ck.CKA_ID, 'buf': 64}]); st = A.call('fs', mode='status'); A.call('fs', mode='off')
+            val = (q.get('tmpl') or [{}, {}])[0].get('data'); idv = (q.get('tmpl') or [{}, {}])[1].get('data')
+            w = dict(backend=backend, aspect=aspect, k=k, errno=errno, rv=q['rvname'])
+            stale = (aspect == 'reveal' and val == VAL0.hex()) or (aspect == 'modify' and q['rv'] == 0 and idv == b'id-before'.hex()) or (aspect == 'destroy' and q['rv'] == 0)
+            if k and stale: ctx.violation(f'C_GetAttributeValue|{backend},other-process-{aspect},reload-fails|answers-from-the-stale-copy', 'after another process changed a token object, the next call in this process -- whose reload of the object failed on a file-system error -- answered from the stale copy', w)
+            # the following call, without any fault
+            q2 = A.call('C_GetAttributeValue', s=sa, o=h, tmpl=[{'t': ck.CKA_VALUE, 'buf': 64}, {'t': ck.CKA_ID, 'buf': 64}]); v2 = (q2.get('tmpl') or [{}, {}])[0].get('data'); i2 = (q2.get('tmpl') or [{}, {}])[1].get('data')
+            good = {'reveal': q2['rvname'] == 'CKR_ATTRIBUTE_SENSITIVE' and v2 != VAL0.hex(), 'modify': q2['rv'] == 0 and i2 == b'id-after'.hex() and v2 == VAL0.hex(), 'destroy': q2['rv'] != 0}[aspect]
+            if not good: ctx.violation(f'C_GetAttributeValue|{backend},other-process-{aspect},after-one-failed-reload|committed-state-not-observed', 'one reload of a token object failed on a file-system error; the FOLLOWING call (no fault any more) still does not observe what the other process committed', dict(w, following=q2['rvname'], id=i2))
+            ctx.case(('two-process-fault', aspect, backend, k, errno), nontrivial=bool(k == 0 or st.get('injected')))
+            return st.get('nops', 0)
+        finally:
+            for x in (A, B):
+                if x is not None:
+                    try: x.close()
+                    except Exception: x.kill()
+    from p11client import Died, Hang
+    try:
+        N = one(0, 0); n += 1
+        for k in range(1, min(N, 40) + 1):
+            for e in errnos:
+                try: one(k, e); n += 1
+                except Died as ex: ctx.observe('side:C17 library terminated the host when a reload failed', {'kind': ex.kind(), 'fn': ex.fn, 'aspect': aspect, 'k': k}); ctx.inconc(f'executor died in the two-process fault scenario ({aspect}, {backend}, k={k})')
+    except AssertionError as e: ctx.inconc(f'two-process fault scenario could not run ({aspect}, {backend}): {e!r}')
+    except Hang: ctx.inconc(f'hang in the two-process fault scenario ({aspect}, {backend})')
+    return n
